@@ -74,10 +74,12 @@ func Load(repo, goos, goarch string) (*Loaded, error) {
 	var pkgs []*packages.Package
 	var L *Loaded
 	var renamed []string
+	reshaped, reshapeFailed := false, false
+	var prevOverlay map[string][]byte
 	ref := readVocab(verifDir)
 	// up to three loads: as found; with renamed types spelled as in the
 	// vocabulary; with renamed functions, fields, variables and constants too
-	for round := 0; round < 3; round++ {
+	for round := 0; round < 4; round++ {
 		var err error
 		pkgs, err = packages.Load(cfg, "./...")
 		if err != nil {
@@ -97,6 +99,13 @@ func Load(repo, goos, goarch string) (*Loaded, error) {
 			L.Pkgs[p.PkgPath] = p
 		})
 		if len(errs) != 0 {
+			if reshaped && !reshapeFailed {
+				// the rewritten program does not type-check: analyse the tree as found
+				reshapeFailed = true
+				cfg.Overlay = prevOverlay
+				renamed = append(renamed, "reshape abandoned (rewritten program does not type-check)")
+				continue
+			}
 			return nil, fmt.Errorf("type-check errors: %s", strings.Join(errs, "; "))
 		}
 		if noRenameNormalisation {
@@ -106,6 +115,21 @@ func Load(repo, goos, goarch string) (*Loaded, error) {
 		if len(rs) == 0 && round == 0 {
 			rs = detectRenames(ref, L.Pkgs, false)
 			round = 1
+		}
+		if len(rs) == 0 && !reshaped {
+			// a function turned into a method or the reverse
+			if sh := detectReshapes(ref, readVocabFlat(verifDir), L.Pkgs); len(sh) > 0 {
+				if ov, ok := reshapeOverlay(L.Pkgs, sh, cfg.Overlay); ok {
+					reshaped = true
+					prevOverlay = cfg.Overlay
+					cfg.Overlay = ov
+					for _, r := range sh {
+						renamed = append(renamed, "reshaped "+r.obj.FullName()+" -> "+r.toKind+" "+r.toName)
+					}
+					round = 0 // one more load, then the ordinary rounds
+					continue
+				}
+			}
 		}
 		if len(rs) == 0 {
 			break
